@@ -103,6 +103,19 @@ def parseInt (t : Token) : P Int :=
   | some none => fail .numberTooLarge t
   | some (some v) => pure v
 
+/-- `MAX_REPEAT = 0xFFFFFFFF` -/
+def MAX_REPEAT : Int := 4294967295
+
+/-- ```python
+def parse_number(self, token):
+    number = self.parse_int(token)
+    if number > MAX_REPEAT: raise PestGrammarSyntaxError("number cannot overflow u32", token=token)
+    return number
+``` -/
+def parseNumber (t : Token) : P Int := do
+  let number ← parseInt t
+  if number > MAX_REPEAT then fail .numberOverflow t else pure number
+
 /-! ### literals -/
 
 /-- `unescape_string(value, token, quote)` called from the parser: errors carry `token` -/
@@ -143,24 +156,24 @@ def parseRepeat (e : Expr) : P Expr := do
   if token.kind = .number then do
     if (← current).kind = .rbrace then do
       advance
-      let n ← parseInt token
+      let n ← parseNumber token
       pure (.repExact e n.toNat)
     else do
       let _ ← eat .comma
       if (← current).kind = .rbrace then do
         advance
-        let n ← parseInt token
+        let n ← parseNumber token
         pure (.repMin e n.toNat)
       else do
         let stop ← eat .number
         let _ ← eat .rbrace
-        let m ← parseInt token
-        let n ← parseInt stop
+        let m ← parseNumber token
+        let n ← parseNumber stop
         pure (.repMinMax e m.toNat n.toNat)
   else if token.kind = .comma then do
     let number ← eat .number
     let _ ← eat .rbrace
-    let n ← parseInt number
+    let n ← parseNumber number
     pure (.repMax e n.toNat)
   else fail .expectedNumberOrComma token
 
